@@ -318,6 +318,8 @@ def classify_failure(an, t, st):
     inner = e
     if e.op == "call" and e.args[0] == "convert::From::from":
         inner = e.args[2][0]
+    elif e.op == "agg" and len(e.args[4]) == 1 and e.args[4][0].op == "payload" and e.args[4][0].args[1] == "Err":
+        inner = e.args[4][0]      # Target::Variant(source error): the body of an in-crate From impl (what `?` applies)
     if inner.op == "payload" and inner.args[1] == "Err":
         src = inner.args[0]
         if src.op == "call":
